@@ -21,7 +21,7 @@ LOSSY = ("latest", "timed_window_unique")
 
 def subops(op):
     """The elementary operations of `op` ({"op":"multi","ops":[...]} = several operations in one loop callback)."""
-    return [s for sub in op["ops"] for s in subops(sub)] if op["op"] == "multi" else [op]
+    return [s for sub in op["ops"] for s in subops(sub)] if op["op"] in ("multi", "after") else [op]
 
 
 def elementary(case):
@@ -142,12 +142,26 @@ def choose_op(rng, run, nodes, st, opts):
                 return {"op": "connect", "up": e[0], "down": e[1]}
             det.add(e)
             return {"op": "disconnect", "up": e[0], "down": e[1]}
+    if rng.random() < opts.get("p_start", 0.0):
+        # start() on some node of the running pipeline (e.g. after attaching a branch): it walks upstream; data in flight is unaffected
+        kind = "restart" if rng.random() < opts.get("p_restart", 0.0) else "start"
+        return {"op": kind, "node": rng.choice([i for i, n in enumerate(nodes) if n["kind"] != "source"])}
     if (pend or jobs) and can_emit and rng.random() < opts.get("p_multi", 0.0):
         # a completion and one or two emissions in ONE loop callback: the emission races the wake-ups the completion causes
         if jobs and (not pend or rng.random() < 0.6):
             subs = [{"op": "jobdone", "job": rng.choice(jobs)}]
         else:
             subs = [{"op": "sinkdone", "tok": rng.choice(pend)}]
+        if rng.random() < 0.35 * opts.get("p_turns", 0.0):
+            # straddle: one emission queued before and one after the wake-ups of the completion, both landing k iterations later
+            k = rng.randint(1, 8)
+            ems = []
+            for _ in range(2):
+                st["val"] += 1
+                st["tag"] += 1
+                st["ref"] += 1
+                ems.append({"op": "emit", "node": rng.choice(sources), "val": st["val"], "md": [{"tag": st["tag"], "ref": st["ref"]}]})
+            return {"op": "multi", "ops": [{"op": "after", "n": k, "ops": [ems[0]]}, subs[0], {"op": "after", "n": k, "ops": [ems[1]]}]}
         for _ in range(rng.choice([1, 1, 2])):
             st["val"] += 1
             st["tag"] += 1
